@@ -64,7 +64,7 @@ def params_of(cls):
     return out
 
 
-ARG_NAME_EXCEPTIONS = {"acct_multi_session_id_avp": "AcctMultiSessionIdAVP"}
+ARG_NAME_EXCEPTIONS = {}
 
 
 def convention_class(arg):
@@ -307,6 +307,34 @@ def table_facts(rep):
                     rep.violation(f"C09:{key}:argument-table:{arg}",
                                   f"{key}.{table_name}['{arg}'] is {klass.__name__}, the argument denotes "
                                   f"{convention_class(arg)}", {"part": "table", "cls": key})
+    # a constructor argument for which the dictionary has a class (by the naming convention) is a legitimate
+    # argument: a plain value for it must be carried by that class, so it must be in one of the two tables
+    from bromelia.base import DiameterAVP
+    known = {}
+
+    def walk(c):
+        for sub in c.__subclasses__():
+            known[sub.__name__] = sub
+            walk(sub)
+    walk(DiameterAVP)
+    for key, cls in classes.items():
+        names = [name for name, _d in params_of(cls)]
+        for name in names:
+            n += 1
+            if name in cls.mandatory or name in cls.optionals or REFCMDS[key].get("app_arg") == name:
+                continue
+            if convention_class(name) in known:
+                rep.violation(f"C09:{key}:argument-not-tabled:{name}",
+                              f"{key}({name}=<plain value>) is rejected: the argument is in neither table although "
+                              f"{convention_class(name)} exists", {"part": "table", "cls": key})
+        for table_name in ("mandatory", "optionals"):
+            for arg in getattr(cls, table_name):
+                if arg not in names and table_name == "optionals" and not any(a == arg for a in names):
+                    n += 1
+                    if arg.endswith("_avp") and arg[:-4] in names:
+                        rep.violation(f"C09:{key}:table-key-misspelt:{arg}",
+                                      f"{key}.{table_name} has the key '{arg}' for the argument '{arg[:-4]}'",
+                                      {"part": "table", "cls": key})
     for key, ref in REFCMDS.items():
         n += 1
         if key not in classes:
